@@ -203,6 +203,8 @@ impl Profile for StoredHandles {
         }
         cells.hit(format!("c20.schema_names_checked|{}", names.len()));
         // ... and one schema that contains handles of all parameterisations has one definition for them
+        static ROOTS: std::sync::OnceLock<Vec<(String, String)>> = std::sync::OnceLock::new();
+        let roots = ROOTS.get_or_init(|| rt::registry::all().into_iter().map(|(k, f)| (k.clone(), (f.schema_root)())).collect());
         static DEFS: std::sync::OnceLock<Vec<String>> = std::sync::OnceLock::new();
         let defs = DEFS.get_or_init(|| {
             let mut gen = sylvia::schemars::gen::SchemaGenerator::default();
@@ -213,8 +215,34 @@ impl Profile for StoredHandles {
         });
         // ... and the schema itself is the same document for every parameterisation, whichever is
         // generated first in the process
-        static ROOTS: std::sync::OnceLock<Vec<(String, String)>> = std::sync::OnceLock::new();
-        let roots = ROOTS.get_or_init(|| rt::registry::all().into_iter().map(|(k, f)| (k.clone(), (f.schema_root)())).collect());
+        // every reference inside a root schema must resolve inside that document
+        fn dangling(v: &serde_json::Value, defs: &serde_json::Value, out: &mut Vec<String>) {
+            match v {
+                serde_json::Value::Object(o) => {
+                    if let Some(r) = o.get("$ref").and_then(|r| r.as_str()) {
+                        if let Some(name) = r.strip_prefix("#/definitions/") {
+                            if defs.get(name).is_none() {
+                                out.push(name.to_string());
+                            }
+                        }
+                    }
+                    for c in o.values() {
+                        dangling(c, defs, out);
+                    }
+                }
+                serde_json::Value::Array(a) => a.iter().for_each(|c| dangling(c, defs, out)),
+                _ => {}
+            }
+        }
+        for (k, r) in roots.iter() {
+            let v: serde_json::Value = serde_json::from_str(r).unwrap_or(serde_json::Value::Null);
+            let mut missing = vec![];
+            dangling(&v, &v["definitions"], &mut missing);
+            if !missing.is_empty() {
+                out.push(Finding::new("C20", "c20.schema_dangling", 0, format!("schema of Remote<{k}> refers to definitions it does not contain: {:?}", missing)));
+                break;
+            }
+        }
         if let Some((k0, r0)) = roots.first() {
             for (k, r) in roots.iter().skip(1) {
                 if r != r0 {
